@@ -45,6 +45,8 @@ ACTIONS = ["ALock", "AArtifacts", "ALogOpen", "APreHook", "ADbOpen", "ASetup", "
            "ADbClose", "AMetaWrite", "ALogClose", "APostHook", "AUnlock", "AExit"]
 OBS_KEYS = ("exit", "escaped", "meta", "log", "lockFree", "db", "pre", "post", "phases", "reported")
 PREHOOK_BASE = 9_000_000
+GLITCH_BASE = 9_500_000
+CASE_OPTS = ("flavour", "dbfail", "nested", "ping", "dbglitch")  # per-case options outside the design's case space
 CLI_BASE = 100000
 EXIT_GRACE_S = 30
 NPAR = max(2, min(12, (os.cpu_count() or 4) - 4))
@@ -319,6 +321,15 @@ def select_cases(cases: list[dict[str, Any]], tier: str, seed: int) -> tuple[lis
         b.append({"id": PREHOOK_BASE + 500 + k, "expect": None,
                   "c": {"kind": kind, "art": True, "db": True, "lock": True, "hooks": True, "point": "DbClose",
                         "how": "CtrlC", "n": 0, "where": "pre"}})
+    # the database reports a transient, non-lock error ("database or disk is full") for a few inserts of the run's
+    # messages while the scanner runs (another process filled the disk for a moment); the run itself is unaffected
+    k = 0
+    for how, n in (("Return", 0), ("SysExit", 3), ("Unexpected", 0)):
+        for glitch in ((1, 2) if tier == "quick" else (1, 2, 5)):
+            b.append({"id": GLITCH_BASE + k, "expect": None, "dbglitch": glitch,
+                      "c": {"kind": "UDSScanner", "art": True, "db": True, "lock": True, "hooks": True,
+                            "point": "Main", "how": how, "n": n, "where": "pre"}})
+            k += 1
     # how the database fails to open: the directory cannot be created / the file is not a database / the file
     # was written by another schema version (the last two fail AFTER the sqlite connection object exists)
     for cs in a + b:
@@ -360,7 +371,7 @@ def process(rep: Report, traces: list[dict[str, Any]], verdicts: dict[int, dict[
             for k, lab in enumerate(v["labels"]):
                 for sig in sigs_for(c, v, k):
                     devhits[sig["explained_by"]] = devhits.get(sig["explained_by"], 0) + 1
-                    rep.violate(lab, sig, {"mode": mode, "case": c, "observed": obs,
+                    rep.violate(lab, sig, {"mode": mode, "case": c, "opts": t.get("opts", {}), "observed": obs,
                                            "expected_by_design": t.get("expect"), "all_broken": v["labels"],
                                            "explain": v["explain"], "raw": t["o"].get("_raw")})
         elif v["explain"] != []:
@@ -453,7 +464,8 @@ def run(tier: str, seed: int) -> Report:
         # the mutant environment of the binding self-test rides along with the in-process cases
         obs = execute(bench, inproc + [{"id": MUTANT_ID, "c": MUTANT_CASE, "mutant": "post-hook-removes-meta"}], cli)
         rep.extra["execution_wall_s"] = round(time.time() - t0, 1)
-        traces = [{"id": cs["id"], "c": cs["c"], "o": obs[cs["id"]], "expect": cs["expect"]} for cs in inproc + cli]
+        traces = [{"id": cs["id"], "c": cs["c"], "o": obs[cs["id"]], "expect": cs["expect"],
+                   "opts": {k: cs[k] for k in CASE_OPTS if k in cs}} for cs in inproc + cli]
         base = pick_base(traces)
         # corrupt the recorded trace of the plain run and, in case the code under test breaks even that
         # one, also the trace TLC itself expects for it (accepted by construction)
@@ -513,9 +525,10 @@ def replay(path: str) -> int:
             d = v["detail"]
             if "case" not in d:
                 continue  # a design-layer violation: nothing to execute
-            key = (d["mode"],) + case_key(d["case"])
+            key = (d["mode"],) + case_key(d["case"]) + (json.dumps(d.get("opts", {}), sort_keys=True),)
             if key not in todo:
-                todo[key] = {"id": (CLI_BASE if d["mode"] == "cli" else 0) + len(todo), "c": d["case"]}
+                todo[key] = {"id": (CLI_BASE if d["mode"] == "cli" else 0) + len(todo), "c": d["case"],
+                             **d.get("opts", {})}
         obs = execute(bench, [cs for k, cs in todo.items() if k[0] == "inproc"],
                       [cs for k, cs in todo.items() if k[0] == "cli"])
         traces = [{"id": cs["id"], "c": cs["c"], "o": obs[cs["id"]]} for cs in todo.values()]
